@@ -1,4 +1,178 @@
 import Reduino.Lang.EvalConst
 /- helper lemmas for Props/C11.lean -/
 namespace Reduino.Lemmas.C11
+open Reduino.Lang.EC
+
+/-! ### non-interference: the handler of `forbidden` nodes is irrelevant for successful runs -/
+
+/-- `y` succeeds with the same value whenever `x` succeeds -/
+def Le {α : Type} (x y : Except Err α) : Prop := ∀ v, x = .ok v → y = .ok v
+
+theorem Le.refl {α : Type} (x : Except Err α) : Le x x := fun _ h => h
+
+theorem Le.bind {α β : Type} {x y : Except Err α} {f g : α → Except Err β}
+    (hxy : Le x y) (hfg : ∀ a, Le (f a) (g a)) : Le (x >>= f) (y >>= g) := by
+  intro v hv
+  cases x with
+  | error e => cases hv
+  | ok a =>
+    rw [hxy a rfl]
+    exact hfg a v hv
+
+theorem Le.ite {α : Type} {c : Prop} [Decidable c] {x y x' y' : Except Err α}
+    (h1 : Le x x') (h2 : Le y y') : Le (if c then x else y) (if c then x' else y') := by
+  split
+  · exact h1
+  · exact h2
+
+abbrev h0 : String → Except Err Val := fun _ => .error .value
+
+mutual
+theorem ni_eval (h : String → Except Err Val) (env : Env) :
+    ∀ e : PExpr, Le (evalH h0 env e) (evalH h env e)
+  | .const v => by rw [evalH, evalH]; exact Le.refl _
+  | .name x => by rw [evalH, evalH]; exact Le.refl _
+  | .bin op a b => by
+    rw [evalH, evalH]
+    exact Le.bind (ni_eval h env a) fun _ => Le.bind (ni_eval h env b) fun _ => Le.refl _
+  | .un op a => by
+    rw [evalH, evalH]
+    exact Le.bind (ni_eval h env a) fun _ => Le.refl _
+  | .and a b => by
+    rw [evalH, evalH]
+    exact Le.bind (ni_eval h env a) fun _ => Le.ite (ni_eval h env b) (Le.refl _)
+  | .or a b => by
+    rw [evalH, evalH]
+    exact Le.bind (ni_eval h env a) fun _ => Le.ite (Le.refl _) (ni_eval h env b)
+  | .compare l rest => by
+    rw [evalH, evalH]
+    refine Le.bind (ni_eval h env l) fun v => ?_
+    cases rest with
+    | nil => exact Le.refl _
+    | cons p ps => exact ni_chain h env v (p :: ps)
+  | .ifexp c a b => by
+    rw [evalH, evalH]
+    exact Le.bind (ni_eval h env c) fun _ => Le.ite (ni_eval h env a) (ni_eval h env b)
+  | .fstr parts => by
+    rw [evalH, evalH]
+    exact Le.bind (ni_parts h env parts) fun _ => Le.refl _
+  | .call f [] => by
+    rw [evalH, evalH]; exact Le.refl _
+  | .call f [a] => by
+    rw [evalH, evalH]
+    refine Le.ite (Le.bind (ni_eval h env a) fun _ => Le.refl _) ?_
+    refine Le.ite (Le.bind (ni_eval h env a) fun _ => Le.refl _) ?_
+    refine Le.ite (Le.bind (ni_eval h env a) fun _ => Le.refl _) ?_
+    exact Le.ite (Le.bind (ni_list h env [a]) fun _ => Le.refl _) (Le.refl _)
+  | .call f (a :: b :: r) => by
+    rw [evalH.eq_12 _ _ _ _ (by simp) (by simp), evalH.eq_12 _ _ _ _ (by simp) (by simp)]
+    refine Le.ite (Le.refl _) ?_
+    refine Le.ite (Le.refl _) ?_
+    refine Le.ite (Le.refl _) ?_
+    exact Le.ite (Le.bind (ni_list h env (a :: b :: r)) fun _ => Le.refl _) (Le.refl _)
+  | .seq t es => by
+    rw [evalH, evalH]
+    exact Le.bind (ni_list h env es) fun _ => Le.refl _
+  | .forbidden k => by
+    rw [evalH]; intro v hv; simp [h0] at hv
+
+theorem ni_chain (h : String → Except Err Val) (env : Env) (l : Val) :
+    ∀ rest : List (CmpOp × PExpr), Le (evalChainH h0 env l rest) (evalChainH h env l rest)
+  | [] => by rw [evalChainH, evalChainH]; exact Le.refl _
+  | (op, e) :: rest => by
+    rw [evalChainH, evalChainH]
+    refine Le.bind (ni_eval h env e) fun r => Le.bind (Le.refl _) fun ok => ?_
+    exact Le.ite (ni_chain h env r rest) (Le.refl _)
+
+theorem ni_parts (h : String → Except Err Val) (env : Env) :
+    ∀ ps : List (Option String × Option PExpr), Le (evalPartsH h0 env ps) (evalPartsH h env ps)
+  | [] => by rw [evalPartsH, evalPartsH]; exact Le.refl _
+  | (some s, _) :: rest => by
+    rw [evalPartsH, evalPartsH]
+    exact Le.bind (ni_parts h env rest) fun _ => Le.refl _
+  | (none, some e) :: rest => by
+    rw [evalPartsH, evalPartsH]
+    refine Le.bind (ni_eval h env e) fun v => ?_
+    cases pyStr v with
+    | none => exact Le.refl _
+    | some s => exact Le.bind (ni_parts h env rest) fun _ => Le.refl _
+  | (none, none) :: _ => by rw [evalPartsH, evalPartsH]; exact Le.refl _
+
+theorem ni_list (h : String → Except Err Val) (env : Env) :
+    ∀ es : List PExpr, Le (evalListH h0 env es) (evalListH h env es)
+  | [] => by rw [evalListH, evalListH]; exact Le.refl _
+  | e :: rest => by
+    rw [evalListH, evalListH]
+    exact Le.bind (ni_eval h env e) fun _ => Le.bind (ni_list h env rest) fun _ => Le.refl _
+end
+
+/-! ### value-level facts for the size bound -/
+
+theorem bind_eq_ok {α β : Type} {x : Except Err α} {f : α → Except Err β} {v : β}
+    (h : (x >>= f) = .ok v) : ∃ a, x = .ok a ∧ f a = .ok v := by
+  cases x with
+  | error e => cases h
+  | ok a => exact ⟨a, rfl, h⟩
+
+theorem natAbs_fmod_le (x y : Int) (hy : y ≠ 0) : (Int.fmod x y).natAbs ≤ y.natAbs := by
+  rw [Int.fmod_eq_emod]
+  have h1 := Int.emod_nonneg x hy
+  have h2 := Int.emod_lt x hy
+  split <;> omega
+
+theorem num?_str_add {x y : String} {k : Int} : (Val.str (x ++ y)).num? = some k → False := by
+  simp [Val.num?]
+
+/-- value-level magnitude bounds of the `**`/`<<`-free arithmetic operators -/
+theorem applyBin_bound {op : BinOp} {a b r : Val} {k : Int}
+    (hr : applyBin op a b = .ok r) (hk : r.num? = some k) (h1 : op ≠ .pow) (h2 : op ≠ .shl) :
+    ∃ x y, a.num? = some x ∧ b.num? = some y ∧
+      (match op with
+       | .add => k.natAbs ≤ x.natAbs + y.natAbs
+       | .sub => k.natAbs ≤ x.natAbs + y.natAbs
+       | .mul => k.natAbs ≤ x.natAbs * y.natAbs
+       | .floordiv => k.natAbs ≤ x.natAbs
+       | .shr => k.natAbs ≤ x.natAbs
+       | .mod => k.natAbs ≤ y.natAbs
+       | _ => True) := by
+  cases hx : a.num? with
+  | none =>
+    exfalso; unfold applyBin at hr; split at hr
+    · cases hr; simp [Val.num?] at hk
+    · simp only [hx] at hr; cases hr
+  | some x =>
+  cases hy : b.num? with
+  | none =>
+    exfalso; unfold applyBin at hr; split at hr
+    · cases hr; simp [Val.num?] at hk
+    · simp only [hx, hy] at hr; cases hr
+  | some y =>
+  refine ⟨x, y, rfl, rfl, ?_⟩
+  unfold applyBin at hr; split at hr
+  · cases hr; simp [Val.num?] at hk
+  · simp only [hx, hy] at hr
+    cases op
+    · cases hr; simp only [Val.num?, Option.some.injEq] at hk; subst hk; omega
+    · cases hr; simp only [Val.num?, Option.some.injEq] at hk; subst hk; omega
+    · cases hr; simp only [Val.num?, Option.some.injEq] at hk; subst hk
+      simp [Int.natAbs_mul]
+    · simp only at hr; split at hr
+      · cases hr
+      · cases hr; simp only [Val.num?, Option.some.injEq] at hk; subst hk
+        exact Int.natAbs_fdiv_le_natAbs _ _
+    · simp only at hr; split at hr
+      · cases hr
+      · cases hr; simp only [Val.num?, Option.some.injEq] at hk; subst hk
+        exact natAbs_fmod_le _ _ (by assumption)
+    · exact absurd rfl h1
+    · exact absurd rfl h2
+    · simp only at hr; split at hr
+      · cases hr
+      · cases hr; simp only [Val.num?, Option.some.injEq] at hk; subst hk
+        exact Int.natAbs_fdiv_le_natAbs _ _
+
+theorem num?_natAbs_bool {b : Bool} {k : Int} (h : (Val.bool b).num? = some k) : k.natAbs ≤ 1 := by
+  simp only [Val.num?, Option.some.injEq] at h
+  subst h; cases b <;> simp
+
 end Reduino.Lemmas.C11
